@@ -4,8 +4,6 @@ package main
 // trigger profile = clean profile + exactly one injected trigger.
 
 import (
-	"strings"
-
 	"verif/harness/internal/rng"
 )
 
@@ -15,15 +13,10 @@ type G struct {
 	allowArrays bool // array values
 	big         bool
 	inMap       int
-	safeKinds   bool // only kinds the traces comparison implements (no double, bytes, map)
 	// trigger switches
-	flagSummary   bool
 	valueless     bool
 	histNoBuckets bool
-	nrvExemplars  bool
-	resAllKinds   bool
 	droppedCounts bool
-	mergeDropped  bool
 }
 
 var strPool = []string{"", "a", "b", "k0", "k1", "k2", "http.method", "svc", "é", "日本", "x y", "A", "name", "host.name", "\x00", "zz"}
@@ -154,9 +147,6 @@ func (g *G) value(depth int) AV {
 	if k == KSlice && !g.allowArrays {
 		k = KStr
 	}
-	if g.safeKinds && (k == KDouble || k == KBytes || k == KMap) {
-		k = []int{KEmpty, KStr, KBool, KInt}[g.r.Intn(4)]
-	}
 	switch k {
 	case KEmpty:
 		return AV{K: KEmpty}
@@ -222,7 +212,7 @@ func (g *G) relocAttrs() Attrs {
 }
 
 func (g *G) attrs() Attrs {
-	if g.inMap == 0 && !g.safeKinds && g.r.Chance(1, 8) {
+	if g.inMap == 0 && g.r.Chance(1, 8) {
 		return g.relocAttrs()
 	}
 	n := 0
@@ -333,16 +323,19 @@ func (g *G) point(typ int, attrPool []Attrs, boundsPool [][]uint64) Pt {
 		} else {
 			p.V = g.flt(true)
 		}
+		// exemplars also on flagged points (they were dropped on the way back before repo commit ede8608)
+		p.Ex = g.exemplars()
 		if flagged {
-			p.Flags = 1 // flagged points keep a value: the converters drop value-less number points
-		} else {
-			p.Ex = g.exemplars()
+			p.Flags = 1
+			if g.r.Chance(1, 3) {
+				// the OTLP staleness marker: no value and the NoRecordedValue flag (the sorting converter
+				// dropped such points before repo commit 42fcfbf)
+				p.VT, p.V = 0, 0
+			}
 		}
 		if g.valueless && g.r.Chance(1, 3) {
-			p.VT, p.V = 0, 0
-			if p.Flags != 0 {
-				p.Ex = nil
-			}
+			// trigger: no value and no flag
+			p.VT, p.V, p.Flags = 0, 0, 0
 		}
 	case MHist:
 		p.Bounds = boundsPool[g.r.Intn(len(boundsPool))]
@@ -351,13 +344,11 @@ func (g *G) point(typ int, attrPool []Attrs, boundsPool [][]uint64) Pt {
 		p.HasSum, p.Sum = g.optF()
 		p.HasMin, p.Min = g.optF()
 		p.HasMax, p.Max = g.optF()
+		p.Ex = g.exemplars()
 		if flagged {
 			p.Flags = 1
-		} else {
-			p.Ex = g.exemplars()
-			if g.histNoBuckets && g.r.Chance(1, 4) {
-				p.Bounds, p.Buckets = nil, nil
-			}
+		} else if g.histNoBuckets && g.r.Chance(1, 4) {
+			p.Bounds, p.Buckets = nil, nil
 		}
 	case MExp:
 		p.Count = g.u64()
@@ -374,10 +365,9 @@ func (g *G) point(typ int, attrPool []Attrs, boundsPool [][]uint64) Pt {
 		p.NegOff = int32(g.r.U64())
 		p.Pos = g.u64s(g.r.Intn(5))
 		p.Neg = g.u64s(g.r.Intn(4))
+		p.Ex = g.exemplars()
 		if flagged {
 			p.Flags = 1
-		} else {
-			p.Ex = g.exemplars()
 		}
 	case MSummary:
 		p.Count = g.u64()
@@ -386,13 +376,9 @@ func (g *G) point(typ int, attrPool []Attrs, boundsPool [][]uint64) Pt {
 		for i := 0; i < n; i++ {
 			p.Quantiles = append(p.Quantiles, [2]uint64{g.flt(true), g.flt(true)})
 		}
-		if g.flagSummary && g.r.Chance(1, 3) {
+		if flagged {
+			// a flagged summary point came back unflagged before repo commit ede8608
 			p.Flags = 1
-		}
-	}
-	if g.nrvExemplars && p.Flags&1 != 0 && typ != MSummary {
-		for len(p.Ex) == 0 {
-			p.Ex = g.exemplars()
 		}
 	}
 	return p
@@ -603,10 +589,12 @@ func (g *G) traces() Traces {
 		Dropped uint32
 	}
 	var resPool []resID
-	g.safeKinds = !g.resAllKinds
+	// resource and scope attributes of every kind (the sorting mode's comparison panicked on double, bytes
+	// and map values before repo commit 679d5d5), and identities that differ only in the dropped
+	// attributes count (merged before that commit)
 	for i := 0; i < nRes; i++ {
 		resPool = append(resPool, resID{g.url(), g.attrs(), g.u32()})
-		if g.mergeDropped {
+		if g.r.Chance(1, 3) {
 			x := resPool[len(resPool)-1]
 			x.Dropped++
 			resPool = append(resPool, x)
@@ -620,43 +608,10 @@ func (g *G) traces() Traces {
 	var scPool []scID
 	for i := 0; i < nSc; i++ {
 		scPool = append(scPool, scID{namePool[g.r.Intn(len(namePool))], g.str(), g.url(), g.attrsN(g.r.Intn(3), 1), g.u32()})
-		if g.mergeDropped {
+		if g.r.Chance(1, 3) {
 			x := scPool[len(scPool)-1]
 			x.Dropped++
 			scPool = append(scPool, x)
-		}
-	}
-	g.safeKinds = false
-	if !g.mergeDropped {
-		// the sorting mode merges resources (scopes) that compare equal; the comparison ignores the
-		// dropped-attributes count, so in the clean profile equal identities carry equal counts.
-		rk := func(x resID) string {
-			var sb strings.Builder
-			sb.WriteString(hs(x.URL))
-			rAttrs(&sb, x.Attrs, false)
-			return sb.String()
-		}
-		seenR := map[string]uint32{}
-		for i := range resPool {
-			if d, ok := seenR[rk(resPool[i])]; ok {
-				resPool[i].Dropped = d
-			} else {
-				seenR[rk(resPool[i])] = resPool[i].Dropped
-			}
-		}
-		sk := func(x scID) string {
-			var sb strings.Builder
-			sb.WriteString(hs(x.Name) + "," + hs(x.Ver) + "," + hs(x.URL))
-			rAttrs(&sb, x.Attrs, false)
-			return sb.String()
-		}
-		seenS := map[string]uint32{}
-		for i := range scPool {
-			if d, ok := seenS[sk(scPool[i])]; ok {
-				scPool[i].Dropped = d
-			} else {
-				seenS[sk(scPool[i])] = scPool[i].Dropped
-			}
 		}
 	}
 	var t Traces
